@@ -8,10 +8,19 @@ Local Open Scope Z_scope.
 Definition ev_of {P} (e : Event) (d : bool) (p : P) : ev P :=
   @mkEv P (Event_time e) (Event__sort_index e) d p.
 
+(** Semantic reading of the translated comparison (proved by case analysis on whatever
+    comparisons the translation contains, so that an equivalent rewrite of [__lt__] -
+    swapped operands, [>] for [<] - still checks). *)
+Lemma event_lt_spec (a b : Event) :
+  Event___lt__ a b = true <->
+  Event_time a < Event_time b \/ (Event_time a = Event_time b /\ Event__sort_index a < Event__sort_index b).
+Proof. unfold Event___lt__. cbn. tie_split; cbn; lia. Qed.
+
 Lemma tie_event_lt {P} (a b : Event) da db (pa pb : P) :
   Event___lt__ a b = ev_ltb (ev_of a da pa) (ev_of b db pb).
 Proof.
-  unfold Event___lt__, ev_ltb, ev_of; cbn. destruct (Event_time a =? Event_time b); reflexivity.
+  apply Bool.eq_true_iff_eq. rewrite event_lt_spec.
+  unfold ev_ltb, ev_of; cbn. destruct (Event_time a =? Event_time b) eqn:E; lia.
 Qed.
 
 (** What the delivery-order theorems need of it: a strict total order on
@@ -24,11 +33,16 @@ Lemma event_lt_strict_total (a b c : Event) :
   /\ (Event___lt__ a b = true <->
       Event_time a < Event_time b \/ (Event_time a = Event_time b /\ Event__sort_index a < Event__sort_index b)).
 Proof.
-  unfold Event___lt__. repeat split.
-  - rewrite Z.eqb_refl; cbn. lia.
-  - destruct (Event_time a =? Event_time b) eqn:E1, (Event_time b =? Event_time c) eqn:E2,
-             (Event_time a =? Event_time c) eqn:E3; cbn; lia.
-  - destruct (Event_time a =? Event_time b) eqn:E1, (Event_time b =? Event_time a) eqn:E2; cbn; lia.
-  - destruct (Event_time a =? Event_time b) eqn:E1; cbn; lia.
-  - destruct (Event_time a =? Event_time b) eqn:E1; cbn; lia.
+  pose proof (event_lt_spec a a) as Haa. pose proof (event_lt_spec a b) as Hab. pose proof (event_lt_spec b c) as Hbc.
+  pose proof (event_lt_spec a c) as Hac. pose proof (event_lt_spec b a) as Hba.
+  repeat split.
+  - destruct (Event___lt__ a a); [|reflexivity]. exfalso. destruct Haa as [Haa _]. specialize (Haa eq_refl). lia.
+  - intros H1 H2. apply Hac. apply Hab in H1. apply Hbc in H2. lia.
+  - destruct (Event___lt__ a b); [left; reflexivity|]. destruct (Event___lt__ b a); [right; left; reflexivity|].
+    right; right. destruct Hab as [_ Hab], Hba as [_ Hba].
+    assert (~ (Event_time a < Event_time b \/ Event_time a = Event_time b /\ Event__sort_index a < Event__sort_index b)) by (intros X; specialize (Hab X); discriminate).
+    assert (~ (Event_time b < Event_time a \/ Event_time b = Event_time a /\ Event__sort_index b < Event__sort_index a)) by (intros X; specialize (Hba X); discriminate).
+    lia.
+  - apply Hab.
+  - apply Hab.
 Qed.
